@@ -241,6 +241,10 @@ def rule_A4(ctx):
         for rv, ts in outs:
             if is_variant(rv, "Ok") and "add_unit" in ts[3]:
                 n_unit_paths += 1
+        # a declined offer is answered with unit - the value unit, made by add_unit - and an accepted one is not
+        no_unit = [ts for rv, ts in outs if is_variant(rv, "Ok") and "declined" in ts[3] and "accepted" not in ts[3] and "add_unit" not in ts[3] and "defer" in ts[3]]
+        if no_unit:
+            r.finding(p, "declined-without-unit", loc(f["hir"]), "a path through `%s` on which the host declined the operation returns Ok without having made the unit value (add_unit): whatever is pushed instead - e.g. the placeholder address offered to the host - is not unit on every data implementation" % f["name"])
         bad = [ts for rv, ts in outs if is_variant(rv, "Ok") and "add_unit" in ts[3] and "defer" not in ts[3] and "work" not in ts[3]]
         r.examine((p, "unit-paths"), True, None)
         if bad and p in al.get("unit_without_offer", {}):
